@@ -180,7 +180,21 @@ var locals = []string{"user", "a.b+c", "first.last", "u", "Mixed.Case", "o'brien
 
 func pick(r *rand.Rand, xs ...string) string { return xs[r.Intn(len(xs))] }
 
+// foldAlike: s with one s replaced by the long s (U+017F), which Unicode case folding maps to s but which is another
+// letter: another mailbox, another domain. "" when s has no s. (Not the Kelvin sign: it is canonically equivalent to K.)
+func foldAlike(s string) string {
+	for i, c := range s {
+		if c == 's' || c == 'S' {
+			return s[:i] + "\u017f" + s[i+1:]
+		}
+	}
+	return ""
+}
+
 func lookAlikeDomains(d string) []string {
+	if f := foldAlike(d); f != "" {
+		return []string{"evil" + d, d + ".evil.net", "sub." + d, d + ".", d + " ", "x" + d, d[:len(d)-1], d[1:], d + "x", "." + d, d + "@", f, f}
+	}
 	return []string{"evil" + d, d + ".evil.net", "sub." + d, d + ".", d + " ", "x" + d, d[:len(d)-1], d[1:], d + "x", "." + d, d + "@"}
 }
 
@@ -276,6 +290,9 @@ func Concretise(c Cell, r *rand.Rand) (Policy, User, error) {
 		}
 		if dom != "" {
 			la = append(la, strings.TrimSuffix(e, dom)+"sub."+dom)
+		}
+		if f := foldAlike(e); f != "" {
+			la = append(la, f, f, f)
 		}
 		a = la[r.Intn(len(la))]
 	case "other":
